@@ -445,8 +445,9 @@ impl LockFreeMemoryPool {
             let (current_offset, current_gen) = Self::unpack_head(packed);
 
             if current_offset == LIST_TAIL {
-                // Empty bin, need to allocate new memory
-                return self.allocate_new_block(size);
+                // Empty bin, need to allocate new memory.  Carve the full bin size: blocks of
+                // this bin are recycled for every request size that maps to the bin.
+                return self.allocate_new_block(FAST_BIN_SIZES[bin_index]);
             }
             #[cfg(zipora_verif)]
             crate::verif_hooks::sched_point("os.pop.loaded", current_offset as u64, current_gen as u64);
@@ -498,7 +499,7 @@ impl LockFreeMemoryPool {
         }
 
         // Max retries exceeded, fall back to new allocation
-        self.allocate_new_block(size)
+        self.allocate_new_block(FAST_BIN_SIZES[bin_index])
     }
 
     /// Deallocate to fast bin using lock-free stack
@@ -580,13 +581,20 @@ impl LockFreeMemoryPool {
         
         // Always allocate from backing memory to ensure consistent pointer validation
         // External cache allocations would cause pointer validation failures in deallocate
-        let offset = self.next_offset.fetch_add(aligned_size as u32, Ordering::Relaxed);
+        // Reserve with a CAS loop: a refused request must not advance (and eventually wrap) the counter
+        let mut offset = self.next_offset.load(Ordering::Relaxed);
+        loop {
+            let end = (offset as usize).checked_add(aligned_size);
+            if end.map_or(true, |e| e > self.config.memory_size || e > u32::MAX as usize) {
+                return Err(ZiporaError::out_of_memory(aligned_size));
+            }
+            match self.next_offset.compare_exchange_weak(offset, offset + aligned_size as u32, Ordering::Relaxed, Ordering::Relaxed) {
+                Ok(_) => break,
+                Err(cur) => offset = cur,
+            }
+        }
         #[cfg(zipora_verif)]
         crate::verif_hooks::sched_point("os.bump", offset as u64, aligned_size as u64);
-        
-        if offset as usize + aligned_size > self.config.memory_size {
-            return Err(ZiporaError::out_of_memory(aligned_size));
-        }
 
         let ptr = self.offset_to_ptr(offset)?;
         
